@@ -109,7 +109,8 @@ func runParser(p *parser) (err error) {
 				err = errors.New("解析算力上限: 表达式过于复杂 (parse budget exceeded)")
 				return
 			}
-			panic(r)
+			// 语法动作中的 panic 一律作为解析错误返回，不能让它逃逸到宿主程序(等同于 pigeon 的 Recover 选项)
+			err = fmt.Errorf("解析失败 (parser failure): %v", r)
 		}
 	}()
 	_, err = p.parse(nil)
